@@ -15,12 +15,12 @@ RULE = (
     'path with >=1 request delivered while the process was live; distinct = SHA-1 of the case JSON'
 )
 ASSUMPTIONS = [
-    'lifecycle hooks do not raise',
+    'lifecycle hooks do not raise (they may issue control calls); one of the three registered cleanups may raise, which plumpy logs and must not let stop the others',
     'the task running step_until_terminated() is observed after the loop is quiescent (no wall clock)',
 ]
 BUDGET = {
-    'quick': {'enum': ['k1', 'k2', 'listener'], 'hyp': 3000, 'shards': 8},
-    'thorough': {'enum': ['k1', 'k2', 'k3', 'listener'], 'hyp': 160000, 'shards': 16},
+    'quick': {'enum': ['k1', 'k2', 'listener', 'hooks'], 'hyp': 4000, 'shards': 8},
+    'thorough': {'enum': ['k1', 'k2', 'k3', 'listener', 'hooks'], 'hyp': 160000, 'shards': 16},
 }
 ALPHABET = [['pause', 'p'], ['play'], ['kill', 'kt'], ['resume', 1]]
 TERMINAL = ('finished', 'excepted', 'killed')
@@ -36,6 +36,14 @@ def enumerate_cases(tier, scope):
         for name in ('async2', 'wait1', 'chain', 'waitwait', 'failing', 'selfkill', 'sync3'):
             for sched in gen.schedules(ALPHABET, k, max_gap):
                 yield {'program': cat[name], 'schedule': sched, 'tag': f'{scope}:{name}'}
+    elif scope == 'hooks':
+        for name in ('wait1', 'chain', 'async2', 'selfkill'):
+            for hook in gen.HOOK_SITES:
+                for occ in (1, 2):
+                    for pos in ('pre', 'post'):
+                        for do in (['kill', 'hk'], ['pause', 'hp']):
+                            for raising in (None, 0, 1):
+                                yield {'program': cat[name], 'schedule': [['tick', 2], ['pause', 'p']], 'hooks': [{'hook': hook, 'occ': occ, 'pos': pos, 'do': do}], 'cleanup_raises': raising}
     elif scope == 'listener':
         notifs = ['on_process_running', 'on_process_waiting', 'on_process_paused', 'on_process_played', 'on_output_emitted']
         for name in ('wait1', 'chain', 'waitwait', 'async2'):
@@ -53,7 +61,12 @@ def _cases(draw, tier):
     prog = draw(gen.programs(max_steps=4 if tier == 'quick' else 6, self_calls=('pause', 'play', 'kill'), soon=True))
     sched = draw(gen.control_schedules(['pause', 'play', 'kill', 'kill', 'resume', 'open'], max_events=4, max_gap=4))
     plans = draw(gen.listener_plans(['kill', 'pause', 'play'])) if draw(st.booleans()) else []
-    return {'program': prog, 'schedule': sched, 'listener': plans}
+    case = {'program': prog, 'schedule': sched, 'listener': plans}
+    if draw(st.integers(0, 2)) == 0:
+        case['hooks'] = draw(gen.hook_plans(['kill', 'pause', 'play']))
+    if draw(st.integers(0, 2)) == 0:
+        case['cleanup_raises'] = draw(st.integers(0, 2))
+    return case
 
 
 def strategy(tier):
@@ -145,7 +158,7 @@ def execute(case):
                 v('terminal-notification', f'state {final}, terminal notifications {term_notes}')
             # cleanups exactly once, closed
             calls = [c.calls for c in ex.cleanups]
-            if calls != [1, 1]:
+            if calls != [1, 1, 1]:
                 v('cleanups', f'cleanup call counts {calls}')
             if views['closed'] is not True:
                 v('not-closed', f"add_cleanup after termination: closed={views['closed']}")
